@@ -1,6 +1,7 @@
 import FluteModel.Lemmas.ObjRecvProto
 import FluteModel.Lemmas.DrainObj
 import FluteModel.Lemmas.ObjRecvTotal
+import FluteModel.Lemmas.ObjRecvPanicFree
 /-
   Object-level part of C04 (untrusted input: no packet sequence can panic or hang the receiver).
   Owner of C04 (props.d, parser + session level): agent recv.
@@ -21,17 +22,12 @@ import FluteModel.Lemmas.ObjRecvTotal
       the `loop` of `decode_write_pkt`, the `while` of `write_blocks`, `push_from_cache`);
     * `bwWrite_total` (Lemmas/ObjRecvTotal.lean) - `BlockWriter::write` returns (no panic, no hang) whenever a BlockWriter exists,
       with `decoderRead_total`, `dwLoop_total`, `decodeWritePkt_total`, `bwData_total`, `bwFinish_total`.
-  STILL MISSING for `push_total` = no PANIC in reachable states (the C03/C09 theorems therefore keep `run = .ok`):
-  a state invariant carried through every function of the model with (a) writer = none -> no BlockWriter; BlockWriter -> transfer length
-  known and != 0; OTI known -> transfer length known; blocks allocated -> OTI known; OTI unknown and transfer length known -> FDT attached
-  [excludes the four `debug_assert` / `unwrap` panics of open/push_to_block2/attach_fdt]; (b) an initialised, not completed block has a
-  decoder [`init_gives_decoder` + `block_push_total` are the local steps]; (c) the partition fields are `block_partitioning(B, L, E)` of
-  the object's OTI with L < 2^48, E < 2^16, so `block_length(sbn)` does not underflow for sbn < nb_blocks (C07); (d) the SUM invariant
-  `total_allocated_blocks_size` = sum of `block_size` over the initialised blocks of the deque and `nb_allocated_blocks` = their number,
-  as long as no terminal call cleared the deque [excludes the two underflows of `write_blocks` and, with max_size < 2^63, the add
-  overflow of `push_to_block2`].  None of (a)-(d) is proved over histories; each is exercised on every run by engine orecv: the model
-  reports `PANIC` / `TIMEOUT` exactly where it leaves `.ok`, the implementation runs under catch_unwind + a 5 s watchdog, the two are
-  compared line by line (families mutate, rs2m, cenc-tiny, cenc-empty-block, limits); defects found that way and repaired: D6, D15,
+  AND, over REACHABLE states: `push_total`, `attach_total`, `drop_total`, `run_total` (bottom of the file) - no Rust panic and no hang for
+  ANY history of parsed packets / FDT attachments from `new`; the invariant `TInv` and the pass are in Lemmas/ObjRecvPanicFree.lean.
+  Hypotheses are on the input side only: decompressor contract `DzOK`, parser ranges `WfPkt` / `WfFile` (transfer length < 2^48,
+  E < 2^16), `max_size < 2^63`.  An FDT entry whose Transfer-Length (a u64 in the XML) is >= 2^48 is OUTSIDE `WfFile`.
+  The model still reports `PANIC` / `TIMEOUT` where it leaves `.ok`, the implementation runs under catch_unwind + a 5 s watchdog, the two
+  are compared line by line (families mutate, rs2m, cenc-tiny, cenc-empty-block, limits); defects found that way and repaired: D6, D15,
   D30, D32.
 -/
 namespace Flute.Props.C04.Obj
@@ -436,5 +432,43 @@ example (st : St) (ops : List Op) :
           dzRead := fun _ _ _ => ⟨0, .err⟩, dzFuel := 1, md5 := fun _ => "",
           env := ⟨fun _ => ⟨.store, true, true, fun _ => true⟩⟩ } st ops ≠ .error .hang :=
   run_no_hang _ ⟨⟨fun _ _ _ => 0, by intro c h call out hres; simp at hres⟩, by intro _ _ _; exact Nat.zero_lt_one⟩ st ops
+
+/-! ### `push_total`: no panic and no hang in any reachable state
+
+`TInv` (Lemmas/ObjRecvPanicFree.lean) is the state invariant: the structural facts behind the `debug_assert` / `unwrap` sites, the
+per-block facts (an initialised, not completed block has a decoder), partition fields = `block_partitioning(B, L, E)` of the object's
+OTI with L < 2^48 and E < 2^16, and the EXACT allocation counters (`total_allocated_blocks_size` = sum of `block_size`,
+`nb_allocated_blocks` = number of live blocks of the deque, or a terminal call cleared the deque).  Hypotheses, all on the INPUT side:
+`DzOK P` (decompressor contract), `WfPkt` / `WfFile` (what the parsers guarantee: 48-bit transfer length, 16-bit symbol length),
+`max_size < 2^63` (configuration). -/
+
+/-- **`push` is total**: for every reachable state and every parsed packet it returns (no Rust panic, no hang), in a reachable state -/
+theorem push_total (P : Params) (D : DzOK P) (st : St) (h : TInv st) (p : Pkt) (hp : WfPkt p) :
+    ∃ st', push P st p = .ok st' ∧ TInv st' := tinv_push P D h p hp
+
+/-- **`attach_fdt` is total** -/
+theorem attach_total (P : Params) (D : DzOK P) (st : St) (h : TInv st) (id : Nat) (file : Option FileEntry)
+    (hf : WfOp (.attach id file)) : ∃ st' b, attachFdt P st id file = .ok (st', b) ∧ TInv st' := tinv_attachFdt P D h id file hf
+
+/-- Drop is a function of the model (total by construction) and keeps the invariant -/
+theorem drop_total (st : St) (h : TInv st) : TInv (drop st) := tinv_drop h
+
+/-- **no history of parsed packets and FDT attachments panics or hangs the object receiver**, from `new` -/
+theorem run_total (P : Params) (D : DzOK P) (toi maxSize : Nat) (hm : maxSize < 2^63) (ops : List Op)
+    (hops : ∀ op ∈ ops, WfOp op) : ∃ st', run P (St.new toi maxSize) ops = .ok st' ∧ TInv st' :=
+  tinv_run P D ops (tinv_new toi maxSize hm) hops
+
+/-- non-vacuity of `run_total`: the hypotheses are met by a concrete parameter set and history -/
+example : ∃ st', run { codec := ⟨fun _ _ => false, fun _ _ _ => none, fun _ _ _ _ _ => none, fun _ _ _ => false, fun _ _ _ => none⟩,
+                       dzRead := fun _ _ _ => ⟨0, .err⟩, dzFuel := 1, md5 := fun _ => "",
+                       env := ⟨fun _ => ⟨.store, true, true, fun _ => true⟩⟩ } (St.new 1 1000)
+      [.attach 1 (some ⟨some ⟨.noCode, 2, 2, 0, none⟩, 3, none, .null, none, false⟩),
+       .push ⟨1, .noCode, false, none, none, [0, 0, 0, 0], [1, 2], 20⟩] = .ok st' ∧ TInv st' := by
+  apply run_total _ (DzOK.ofNoData _ (by intro _ _ _ _ h; cases h) (by decide)) 1 1000 (by decide)
+  intro op hop
+  simp at hop
+  rcases hop with rfl | rfl
+  · exact ⟨by decide, by intro o ho; cases ho; decide⟩
+  · intro o l h; cases h
 
 end Flute.Props.C04.Obj
